@@ -50,6 +50,7 @@ DefStream ==
      surfaced |-> FALSE,    \* returned by accept() / poll_push
      refused  |-> FALSE,    \* E wrote RST_STREAM(REFUSED_STREAM)
      mustRefuse |-> FALSE,
+     overAtOpen |-> FALSE,  \* the HEADERS frame that opens the stream arrived beyond the limit (the duty to refuse starts when its header block is complete)
      hdrPending |-> FALSE,  \* send_request accepted, HEADERS not yet on the wire
      inAfterRst |-> FALSE,  \* a DATA/HEADERS frame of the peer was handed to E after E's RST_STREAM (it raced with it)
      wantBeforeOpen |-> FALSE, \* the application reset the stream before its HEADERS were on the wire
@@ -490,6 +491,7 @@ StepInBlockEnd(m, f) ==
     THEN LET x == S(m, f.sid)
              info == f.hdr.ok /\ f.hdr.status >= 100 /\ f.hdr.status < 200
          IN SetS(m, f.sid, [x EXCEPT !.i = IF f.bes /\ x.i = "open" THEN "es" ELSE x.i,
+                                     !.mustRefuse = x.mustRefuse \/ (x.overAtOpen /\ x.blocksIn = 0),
                                      !.blocksIn = x.blocksIn + 1, !.infoIn = x.infoIn + (IF info THEN 1 ELSE 0)])
     ELSE m
 
@@ -636,7 +638,7 @@ MarkOverLimit(m, f) ==
     IF f.ty = "HEADERS" /\ f.sid # 0 /\ ~LocallyInit(m, f.sid) /\ S(m, f.sid).i = "idle"
        /\ m.la.maxc >= 0 /\ m.sentSet = <<>> /\ m.role = "s" /\ ~m.tainted
        /\ Cardinality(ActivePeer(m) \ {f.sid}) >= m.la.maxc
-    THEN SetS(m, f.sid, [S(m, f.sid) EXCEPT !.mustRefuse = TRUE])
+    THEN SetS(m, f.sid, [S(m, f.sid) EXCEPT !.overAtOpen = TRUE])
     ELSE m
 
 \* ==== dispatcher ====================================================================
